@@ -69,6 +69,18 @@ def run(ctx):
     ctx.ob('C45.latch-complete', 'TransactionPacketGenerator.latched-set', want_latch <= set(src_of.values()), fsm.loc,
            'address, endpoint number, retry flag and sequence number must all be latched; latched: %s' % sorted(src_of.values()))
     inv = {v: k for k, v in src_of.items()}
+    # a latched copy must hold the whole header field it fills (USB 3.2 table 8-13: address 7, endpoint 4, retry 1,
+    # sequence number 5 bits), otherwise the upper bits requested are lost between request and packet
+    FIELD_W = {'self.address': 7, 'self.interface.endpoint_number': 4, 'self.interface.retry_required': 1,
+               'self.interface.next_sequence': 5}
+    for src, fw in sorted(FIELD_W.items()):
+        reg = inv.get(src)
+        if reg is None:
+            continue
+        si = ir.signals.get(reg)
+        ctx.ob('C45.latch-width', 'TransactionPacketGenerator.latch<-%s.width' % src, si is not None and isinstance(si.w, int) and si.w >= fw,
+               si.loc if si is not None else fsm.loc,
+               'the register %s latching %s is %s bits wide, the header field it fills has %d' % (reg, src, si.w if si else None, fw))
     for kind, sub in SPEC.items():
         req = 'self.interface.send_' + kind
         asg = {r: (r == req) for r in reqs}
